@@ -2086,6 +2086,12 @@ class PseudoNetCDFFile(PseudoNetCDFSelfReg, object):
                         varo[sliceoi], axis=concatax))
                 newvals = np.ma.concatenate(point_arrays, axis=concatax)
             else:
+                # integers select a length-1 axis; as slices they cannot
+                # combine with an index list into a broadcast (fancy) index
+                # whose axes numpy would move to the front
+                sliceo = tuple(
+                    slice(si, si + 1 or None) if np.isscalar(si) else si
+                    for si in sliceo)
                 newvals = varo[sliceo]
             try:
                 newvaro[...] = newvals
